@@ -30,7 +30,7 @@ def _hang(impl, m=None):
             if impl.get(k, "").isdigit() and int(impl[k]) > int(m["cbound"]) and (k == "x_over" or int(impl[k]) <= CALL_BUDGET):
                 return ("check-unbounded", f"the check issued {impl[k]}{'+' if k == 'x_over' else ''} storage operations; the bound "
                                            f"proved from depth, width, configuration and store size is {m['cbound']}")
-    if "x_over" in impl and m is not None and m.get("calls", "").isdigit() and int(m["calls"]) <= CALL_BUDGET // 2:
+    if "x_over" in impl and m is not None and m.get("calls", "").isdigit() and int(m["calls"]) <= CALL_BUDGET:
         return ("check-unbounded", f"the check issued more than {CALL_BUDGET} storage operations (stopped by the harness); "
                                    f"the model needs {m['calls']}")
     return None
